@@ -18,7 +18,7 @@ import (
 )
 
 type c07Op struct {
-	Op    string `json:"op"`              // sendiq arrive burst recv cancel
+	Op    string `json:"op"`              // sendiq arrive burst recv cancel reenter
 	ID    int    `json:"id,omitempty"`    // iq id (sendiq, arrive, burst)
 	Req   int    `json:"req,omitempty"`   // request index (recv, cancel)
 	N     int    `json:"n,omitempty"`     // burst: number of concurrent copies
@@ -40,7 +40,7 @@ func (c07) RunFn() string { return "run_C07" }
 func (c07) Workers() int  { return 8 }
 func (c07) Journal() bool { return true }
 func (c07) Rule() string {
-	return "forced schedules on the real Router/Client/Component: SendIQ (ids distinct or clashing, write ok or failing, response routed from inside the transport write i.e. before SendIQ returns), matching / duplicate / foreign responses routed synchronously, bursts of 2-6 concurrent copies of one response released together through the exported IQResultRouteLock, receiver reading or abandoning its channel, context cancellation before the response, with the clean-up goroutine run or held back (context whose Done() never fires); every routing call runs under a watchdog (a call that does not return is a blocked router); distinct = op sequence shape; non-trivial = at least one request and one response"
+	return "forced schedules on the real Router/Client/Component: SendIQ (ids distinct or clashing, write ok or failing, response routed from inside the transport write i.e. before SendIQ returns), matching / duplicate / foreign responses routed synchronously, bursts of 2-6 concurrent copies of one response released together through the exported IQResultRouteLock, receiver reading or abandoning its channel, an ordinary route handler that itself calls SendIQ (re-entrancy into the pending table while a response is being routed), context cancellation before the response, with the clean-up goroutine run or held back (context whose Done() never fires); every routing call runs under a watchdog (a call that does not return is a blocked router); distinct = op sequence shape; non-trivial = at least one request and one response"
 }
 func (c07) Decode(raw json.RawMessage) (interface{}, error) {
 	var in c07In
@@ -63,6 +63,9 @@ func (c07) Gen(r *rand.Rand, tier string) []interface{} {
 		c07In{Component: true, Ops: []c07Op{{Op: "sendiq", ID: 1}, {Op: "arrive", ID: 1}, {Op: "arrive", ID: 2}}},
 		// cancellation then response
 		c07In{Ops: []c07Op{{Op: "sendiq", ID: 1}, {Op: "cancel", Req: 0}, {Op: "arrive", ID: 1}}},
+		// an ordinary route handler that itself sends a request (re-entrancy into the pending table)
+		c07In{Component: true, Ops: []c07Op{{Op: "reenter", ID: 9}, {Op: "arrive", ID: 20}, {Op: "recv", Req: 0}}},
+		c07In{Ops: []c07Op{{Op: "sendiq", ID: 1}, {Op: "arrive", ID: 1}, {Op: "reenter", ID: 1}, {Op: "arrive", ID: 21}}},
 		// clashing ids
 		c07In{Ops: []c07Op{{Op: "sendiq", ID: 1}, {Op: "sendiq", ID: 1}, {Op: "arrive", ID: 1}, {Op: "arrive", ID: 1}, {Op: "recv", Req: 0}, {Op: "recv", Req: 1}}},
 		c07In{Ops: []c07Op{{Op: "sendiq", ID: 1, Fail: true}, {Op: "arrive", ID: 1}}},
@@ -79,9 +82,17 @@ func (c07) Gen(r *rand.Rand, tier string) []interface{} {
 				in.Ops = append(in.Ops, c07Op{Op: "sendiq", ID: 1 + r.Intn(3), Fail: r.Intn(8) == 0, Early: r.Intn(6) == 0, Late: r.Intn(4) == 0})
 				nreq++
 			case c < 12:
-				in.Ops = append(in.Ops, c07Op{Op: "arrive", ID: 1 + r.Intn(4)})
-			case c < 14:
+				id := 1 + r.Intn(4)
+				if nreq > 0 && r.Intn(5) == 0 {
+					id = 20 + r.Intn(nreq) // the answer to a request sent by a re-entrant handler (if that slot is one)
+				}
+				in.Ops = append(in.Ops, c07Op{Op: "arrive", ID: id})
+			case c < 13:
 				in.Ops = append(in.Ops, c07Op{Op: "burst", ID: 1 + r.Intn(3), N: 2 + r.Intn(5)})
+			case c < 14:
+				// a late/duplicate/foreign response whose ordinary handler sends a new request
+				in.Ops = append(in.Ops, c07Op{Op: "reenter", ID: 5 + r.Intn(3)})
+				nreq++
 			case c < 17:
 				in.Ops = append(in.Ops, c07Op{Op: "recv", Req: r.Intn(nreq)})
 			default:
@@ -123,6 +134,13 @@ func (c07) Input(inp interface{}) Sx {
 			}
 		case "arrive":
 			arrive(o.ID)
+		case "reenter":
+			// the response is routed; its ordinary handler (if it runs) registers request 20+chan index
+			arrive(o.ID)
+			acts = append(acts, L(Z(0), Zi(20+nch)))
+			nch++
+			failed = append(failed, false)
+			late = append(late, false)
 		case "burst":
 			first := nrt
 			for k := 0; k < o.N; k++ {
@@ -177,13 +195,19 @@ func (c07) Run(inp interface{}) Sx {
 	router := xmpp.NewRouter()
 	var mu sync.Mutex
 	var ordinary []int64
+	var reenter func(s xmpp.Sender) // set while a "reenter" op is being executed
 	router.NewRoute().HandlerFunc(func(s xmpp.Sender, p stanza.Packet) {
 		if iq, ok := p.(*stanza.IQ); ok {
 			var id int64
 			fmt.Sscan(iq.Id, &id)
 			mu.Lock()
 			ordinary = append(ordinary, id)
+			f := reenter
+			reenter = nil
 			mu.Unlock()
+			if f != nil {
+				f(s) // the handler sends a request of its own
+			}
 		}
 	})
 	var sender xmpp.Sender
@@ -245,6 +269,12 @@ func (c07) Run(inp interface{}) Sx {
 		}
 	}
 	for _, o := range in.Ops {
+		mu.Lock()
+		stuck := blocked > 0
+		mu.Unlock()
+		if stuck {
+			break // a routing call never returned (it may hold the table lock): anything further would hang too
+		}
 		switch o.Op {
 		case "sendiq":
 			ctx, cancel := context.WithCancel(context.Background())
@@ -269,6 +299,29 @@ func (c07) Run(inp interface{}) Sx {
 			reqs = append(reqs, rq)
 		case "arrive":
 			routeSync(o.ID)
+		case "reenter":
+			rq := &req{}
+			newID := 20 + len(reqs)
+			mu.Lock()
+			reenter = func(s xmpp.Sender) {
+				ctx, cancel := context.WithCancel(context.Background())
+				iq, _ := stanza.NewIQ(stanza.Attrs{Type: stanza.IQTypeGet, Id: fmt.Sprint(newID), To: "srv"})
+				ch, err := s.SendIQ(ctx, iq)
+				rq.ch, rq.cancel, rq.failed = ch, cancel, err != nil
+			}
+			mu.Unlock()
+			routeSync(o.ID)
+			mu.Lock()
+			ran := reenter == nil
+			reenter = nil
+			mu.Unlock()
+			if !ran || rq.cancel == nil {
+				// the response did not reach the ordinary handler (it was delivered to a pending
+				// request) or the handler is stuck: the slot stays, unused
+				rq.cancel = func() {}
+				rq.got = append(rq.got, -9)
+			}
+			reqs = append(reqs, rq)
 		case "burst":
 			// all copies reach the table lookup together: they queue on the exported lock
 			router.IQResultRouteLock.Lock()
@@ -392,6 +445,14 @@ func (c07) Oracle(inp interface{}, obs Sx) (string, string) {
 			}
 		case "arrive":
 			deliver(o.ID)
+		case "reenter":
+			// generated with ids nobody is waiting for: ordinary routing, whose handler sends request 20+index
+			deliver(o.ID)
+			rq := len(reqID)
+			reqID = append(reqID, 20+rq)
+			failed = append(failed, false)
+			isLate = append(isLate, false)
+			pending[20+rq] = rq
 		case "burst":
 			for k := 0; k < o.N; k++ {
 				deliver(o.ID)
@@ -429,7 +490,7 @@ func (c07) Oracle(inp interface{}, obs Sx) (string, string) {
 	for _, v := range obs.L[2].L {
 		gotOrd[int(v.Z)]++
 	}
-	for id := 0; id <= 6; id++ {
+	for id := 0; id <= 60; id++ {
 		if gotOrd[id] != wantOrd[id] {
 			return fmt.Sprintf("responses with id %d: %d handed to the ordinary routes, expected %d", id, gotOrd[id], wantOrd[id]), "ordinary-count"
 		}
